@@ -99,10 +99,16 @@ def make(seed):
         return {"x": {"type": "Double", "value": rng.choice(VALS)}, "n": {"type": "Integer", "value": rng.randint(-5, 9)},
                 "label": {"type": "String", "value": "z"}}
     agents = [{"name": "a", "count": n_a, "properties": props()}, {"name": "b", "count": n_b, "properties": props()}]
-    script = {"state": {}, "prop": {}}
+    script = {"state": {}, "prop": {}, "end": {}}
     ids = list(range(n_a + n_b))
     never = rng.random() < 0.25   # sometimes 'busy' is never populated
     for k in range(nsteps):
+        if rng.random() < 0.25:
+            # population changes at the end of a step: the step's statistics must already reflect them
+            if rng.random() < 0.5:
+                script["end"].setdefault(str(k), []).append(["delete", rng.choice(ids)])
+            else:
+                script["end"].setdefault(str(k), []).append(["create", rng.choice(["a", "b"]), props()])
         for i in ids:
             if rng.random() < 0.5:
                 sts = STATES[:2] if never else STATES
@@ -144,7 +150,9 @@ def run_case(case):
         except Exception as e:
             import traceback
             w = dict(kind="output-exception:" + type(e).__name__, error=traceback.format_exc()[-500:])
-        snaps = {e[1]: recompute(e[2]) for e in model.log if e[0] == "collect"}
+        # truth = the population the model had at the end of each step (recorded by the harness subclass in
+        # end_round), NOT the list the scheduler handed to the collector
+        snaps = {e[1]: recompute(e[2]) for e in model.log if e[0] == "population"}
         if w is None and _st["fail"] is None:
             # Model.statistics() vs snapshots (boundary formulation of the postcondition)
             stats = model.statistics()
